@@ -12,3 +12,9 @@ add("C10",
     "Differential + invariant search over generated source texts (token soup, look-alike lexemes, mixed indentation, all Unicode line terminators, mutated corpus). Explores ~10^4 (quick) to ~10^5-10^6 (thorough) texts; finds disagreement with the documented pattern table or broken positions; not exhaustive.",
     "Trusts: Python's re module and str.splitlines/isspace as the definition of lines and whitespace; doc/grammar.md as the specification of patterns.",
     "DESIGN.md §4 C10")
+
+add("C09",
+    "exhaustive product-automaton comparison (bisimulation) of loaded vs freshly generated LR(1) tables + production-set equality with doc/grammar.md, plus Hypothesis-seeded differential parsing of generated/mutated token sequences",
+    "The finite part is enumerated completely: every reachable state pair x every symbol must agree on action kind, reduce rule, error message (after default fallback), expected-token set and goto definedness, for the module and expression parsers; the generated part cross-checks ParseResults on ~10^3-10^4 token sequences.",
+    "Trusts: the fresh generator as reference (C08 checks it); isomorphism of canonical LR(1) automata; my reader of doc/grammar.md's production listing.",
+    "DESIGN.md §4 C09")
